@@ -1,6 +1,6 @@
 """Property -> rules table. Each rule callable: (prog, tier, repo) -> [RuleResult]."""
 from .rules import traversal_instances as TI
-from .rules import gate, lookup_unwrap, heap, witness, incremental, optimizer, const_arith, shape, backend, printer_rules
+from .rules import gate, lookup_unwrap, heap, witness, incremental, optimizer, const_arith, shape, backend, printer_rules, comment_linear
 
 PROPERTIES = {}
 
@@ -62,8 +62,13 @@ prop('C08', COMMON +
      [printer_rules.run_prec_iso, printer_rules.run_literal_parity, TI.make(['T-prt'])])
 
 prop('C09', COMMON +
-     'TRAVERSAL/SIBLING: the pretty-printer reads every comment-reference slot of the syntax tree.',
-     [TI.make(['T-prc'])])
+     'Clause "every comment is kept". COMMENT-LINEAR: linear-resource typestate dataflow over the parser MIR (Vec<Comment> '
+     'places Moved/Empty/MaybeNonEmpty; L1 no drop of a possibly non-empty comment vector, L2 no discarded '
+     'create_comment_reference result, L3 no whole drop of a comment-carrying node) except on paths that report a syntax '
+     'error. ID-COMMENT-PAIR: an identifier the printer prints by name only is provably built with the constant empty '
+     'comment reference. TRAVERSAL/SIBLING(T-prc): the printer reads every comment-reference slot. Does not decide '
+     'idempotence of the layout nor that a stored comment is printed in the right place.',
+     [comment_linear.run, printer_rules.run_id_comment_pair, TI.make(['T-prc'])])
 
 prop('C11', COMMON +
      'TRAVERSAL/SIBLING(T-gc): the PStr-bearing fields reachable from Module<Arc<Type>> (type walk over the ADT table) '
